@@ -833,6 +833,22 @@ def rule_vcs(ck: Check, repo: Repo) -> None:
     r.instance("hg-ignored", {"argv": cmd, "split": sp})
     if ("--print0" in cmd) != (sp == ["\0"]) or "--ignored" not in cmd:
         r.violation(f"{H}._find_all_ignored_files", "separator mismatch", f"argv {cmd}, split {sp!r}", repo.loc(fn))
+    # 'VCS submodules' are what the VCS says they are: is_submodule answers from the VCS's own list only.  A probe of the
+    # tree (a `.git` entry, a marker file) makes an ordinary directory that happens to contain such an entry a 'submodule'
+    PROBES = ("exists", "is_dir", "is_file", "is_symlink", "stat", "lstat", "iterdir", "glob", "rglob", "listdir", "scandir", "open", "isdir", "isfile", "lexists")
+    for sq, sf in sorted(repo.functions.items()):
+        if not (sq.startswith("reuse.vcs.") and sq.endswith(".is_submodule")):
+            continue
+        ck.analysed_fn(sq)
+        owner = sq.rsplit(".", 1)[0]
+        scope = [sf] + [repo.functions[f"{owner}.{c.func.attr}"] for c in ast.walk(sf) if isinstance(c, ast.Call) and isinstance(c.func, ast.Attribute)
+                        and isinstance(c.func.value, ast.Name) and c.func.value.id in ("self", "cls") and f"{owner}.{c.func.attr}" in repo.functions]
+        probes = [ast.unparse(c)[:50] for f in scope for c in ast.walk(f) if isinstance(c, ast.Call) and isinstance(c.func, ast.Attribute) and c.func.attr in PROBES]
+        r.instance(f"submodule-test:{sq}", {"function": sq, "file_system_probes": probes}, sq)
+        if probes:
+            r.violation(sq, f"is_submodule probes the tree ({probes[0]})",
+                        "a tracked directory that merely contains an entry named `.git` (an empty file, a leftover directory) is pruned like a"
+                        " submodule: its covered files are skipped by lint, spdx and annotate -r although git lists them as tracked", repo.loc(sf))
     for cls in (G, H):
         q = f"{cls}.is_ignored"
         f2 = repo.func(q)
